@@ -715,4 +715,139 @@ def firstError {ε A B : Type} (f : A → Except ε B) : List A → Option ε
     | .error x => some x
     | .ok _ => firstError f t
 
+/-! ### The tables of `IndexedInstruments` and the values of the lookups by key, as a function of the
+definitions alone
+
+Written from the property text of C11 ("every distinct exchange, exchange-asset and instrument
+receives exactly one index equal to its position … the result does not depend on insertion order";
+state `IndexedInstruments{exchanges, assets, instruments}`: "sorted + deduped vectors, key =
+position") and from the doc comments of index/mod.rs (an index for each `ExchangeId` /
+`ExchangeAsset` / `Instrument` "added during initialisation"; `find_asset_index` and
+`find_instrument_index` are keyed by the exchange and the *internal* name). The order is the one
+the types document: exchanges in declaration order, names as strings (Rust `str` order =
+lexicographic by Unicode scalar value), an `ExchangeAsset` by exchange, then internal name, then
+exchange name. Nothing here calls the builder model (`build`, `sortDedup`, `code`). -/
+
+/-- "(e, n) comes before (e', n')": exchange in declaration order, then the name as a string -/
+def specKeyLt (e : ExchangeId) (n : Str) (e' : ExchangeId) (n' : Str) : Bool :=
+  decide (e.toNat < e'.toNat) || (e == e' && decide (n < n'))
+
+/-- the (exchange, asset) pairs the definitions mention (base, quote, settlement, quantity unit) -/
+def specAssetEntries (defs : List SDef) : List (ExchangeId × Asset) :=
+  defs.flatMap (fun d => d.assetRefs.map (fun a => (d.exchange, a)))
+
+/-- `exchanges()`: the exchanges added during initialisation, each once, in declaration order -/
+def specExchangeTable (defs : List SDef) : List ExchangeId :=
+  ExchangeId.all.filter (specHasExchange defs)
+
+/-- the `ExchangeIndex` of an exchange that was added = its position in `exchanges()` -/
+def specExchangeIndex (defs : List SDef) (e : ExchangeId) : Nat := (specExchangeTable defs).idxOf e
+
+/-- the `AssetIndex` `find_asset_index(e, n)` answers when the asset was added: the number of
+distinct (exchange, asset) pairs of the definitions whose (exchange, internal name) comes before
+`(e, n)` — i.e. the position of the first entry with that key in the sorted, duplicate-free table. -/
+def specAssetIndex (defs : List SDef) (e : ExchangeId) (n : AssetNameInternal) : Nat :=
+  ((BarterModel.Index.specDistinct (specAssetEntries defs)).filter
+    (fun x => specKeyLt x.1 x.2.nameInternal.name e n.name)).length
+
+/-- the `InstrumentIndex` `find_instrument_index(e, n)` answers when such an instrument was added:
+the number of distinct definitions whose (exchange, internal name) comes before `(e, n)`. -/
+def specInstrumentIndex (defs : List SDef) (e : ExchangeId) (n : InstrumentNameInternal) : Nat :=
+  ((BarterModel.Index.specDistinct defs).filter
+    (fun d => specKeyLt d.exchange d.nameInternal.name e n.name)).length
+
+/-- insert into a strictly ascending list; an element that is neither before nor after an element
+already present is that element (or, for a coarser order, indistinguishable from it) and is dropped -/
+def specInsert {α : Type} (lt : α → α → Bool) (x : α) : List α → List α
+  | [] => [x]
+  | y :: t => if lt x y then x :: y :: t else if lt y x then y :: specInsert lt x t else y :: t
+
+/-- "sorted + deduped" -/
+def specSortDistinct {α : Type} (lt : α → α → Bool) (l : List α) : List α :=
+  l.foldl (fun acc x => specInsert lt x acc) []
+
+/-- order of `ExchangeAsset<Asset>`: exchange, internal name, exchange name -/
+def specAssetLt (x y : ExchangeId × Asset) : Bool :=
+  specKeyLt x.1 x.2.nameInternal.name y.1 y.2.nameInternal.name ||
+    (x.1 == y.1 && x.2.nameInternal == y.2.nameInternal &&
+      decide (x.2.nameExchange.name < y.2.nameExchange.name))
+
+/-- `assets()`: the distinct (exchange, asset) pairs in ascending order; key = position -/
+def specAssetTable (defs : List SDef) : List (ExchangeId × Asset) :=
+  specSortDistinct specAssetLt (specAssetEntries defs)
+
+/-- within one exchange an internal asset name determines the asset (string-level `WFAssets`): the
+hypothesis under which "references resolve to the entries the instrument was defined with" -/
+def specWFAssets (defs : List SDef) : Bool :=
+  (specAssetEntries defs).all (fun x => (specAssetEntries defs).all (fun y =>
+    !(x.1 == y.1 && x.2.nameInternal == y.2.nameInternal) || x == y))
+
+/-! The derived `Ord` of the Rust types, read off their declarations ("lexicographic in the
+top-to-bottom order of the members; enum variants in declaration order"): `Instrument` = exchange,
+name_internal, name_exchange, underlying (base, quote), quote, kind, spec. -/
+
+def specCmpStr (a b : Str) : Ordering := if a < b then .lt else if a == b then .eq else .gt
+
+/-- `Asset`: name_internal, name_exchange -/
+def specCmpAsset (a b : Asset) : Ordering :=
+  (specCmpStr a.nameInternal.name b.nameInternal.name).then
+    (specCmpStr a.nameExchange.name b.nameExchange.name)
+
+/-- `InstrumentKind`: Spot < Perpetual < Future < Option; the contracts by contract_size,
+settlement_asset, (kind, exercise,) expiry(, strike) -/
+def specCmpKind : Kind Asset → Kind Asset → Ordering
+  | .spot, .spot => .eq
+  | .spot, _ => .lt
+  | _, .spot => .gt
+  | .perpetual s a, .perpetual s' a' => (compare s s').then (specCmpAsset a a')
+  | .perpetual _ _, _ => .lt
+  | _, .perpetual _ _ => .gt
+  | .future s a e, .future s' a' e' => ((compare s s').then (specCmpAsset a a')).then (compare e e')
+  | .future _ _ _, _ => .lt
+  | _, .future _ _ _ => .gt
+  | .option s a p x e k, .option s' a' p' x' e' k' =>
+    (((((compare s s').then (specCmpAsset a a')).then (compare p p')).then (compare x x')).then
+      (compare e e')).then (compare k k')
+
+/-- `OrderQuantityUnits`: Asset(_) < Contract < Quote -/
+def specCmpUnits : Units Asset → Units Asset → Ordering
+  | .asset a, .asset a' => specCmpAsset a a'
+  | .asset _, _ => .lt
+  | _, .asset _ => .gt
+  | .contract, .contract => .eq
+  | .contract, .quote => .lt
+  | .quote, .contract => .gt
+  | .quote, .quote => .eq
+
+/-- `Option<InstrumentSpec>`: None < Some; price (min, tick_size), quantity (unit, min, increment),
+notional (min) -/
+def specCmpSpec : Option (Spec Asset) → Option (Spec Asset) → Ordering
+  | none, none => .eq
+  | none, some _ => .lt
+  | some _, none => .gt
+  | some a, some b =>
+    (((((compare a.priceMin b.priceMin).then (compare a.tick b.tick)).then
+      (specCmpUnits a.unit b.unit)).then (compare a.qtyMin b.qtyMin)).then
+      (compare a.qtyInc b.qtyInc)).then (compare a.notionalMin b.notionalMin)
+
+def specCmpInstrument (a b : SDef) : Ordering :=
+  (((((((compare a.exchange.toNat b.exchange.toNat).then
+    (specCmpStr a.nameInternal.name b.nameInternal.name)).then
+    (specCmpStr a.nameExchange.name b.nameExchange.name)).then
+    (specCmpAsset a.base b.base)).then (specCmpAsset a.quote b.quote)).then
+    (compare a.quoteAsset b.quoteAsset)).then (specCmpKind a.kind b.kind)).then
+    (specCmpSpec a.spec b.spec)
+
+/-- `instruments()`: the distinct definitions in ascending derived order; key = position -/
+def specInstrumentTable (defs : List SDef) : List SDef :=
+  specSortDistinct (fun a b => specCmpInstrument a b == .lt) defs
+
+/-! Vocabulary of the theorems that tie these functions to the builder model (`Props/C11N.lean`). -/
+
+/-- `specKeyLt` on the naturals of the builder model: "(e, n) comes before (e', n')" -/
+def keyLt (e n e' n' : Nat) : Bool := decide (e < e' ∨ (e = e' ∧ n < n'))
+
+/-- the entry of the builder model an (exchange, asset) pair of strings stands for -/
+def eraseEntry (x : ExchangeId × Asset) : BarterModel.Index.ExchangeAsset := ⟨x.1.toNat, x.2.erase⟩
+
 end BarterModel.Names
